@@ -592,13 +592,13 @@ def r_ja(repo, rep):
     rep.check(all(seen.values()), 'R20.6', wt, 'ja-reader:node:arity', 'unary and binary nodes are both rebuilt', 'rebuilt node kinds: %s' % seen)
 
 
-def r_ptb_lines(repo, rep, R='R20.4'):
+def r_ptb_lines(repo, rep, R='R20.4', reader='read_ptb', what='PTB'):
     """read_ptb hands every line that is neither blank nor a heading to the line parser, as it is (stripped): the
     completeness check of the line parser then sees each line by itself -- a line held back until brackets balance, or
     joined with its neighbours, is never rejected when it is incomplete (it swallows the lines after it instead)"""
     rm = repo.module(RD)
-    fn = rm.get('read_ptb')
-    w = '%s:%s read_ptb' % (RD, fn.lineno)
+    fn = rm.get(reader)
+    w = '%s:%s %s' % (RD, fn.lineno, reader)
     judged = 0
     bad = []
     for st, o in SymExec(fn, unroll=1).run():
@@ -618,18 +618,29 @@ def r_ptb_lines(repo, rep, R='R20.4'):
         blank = any(pol and c[0] == 'cmp' and c[1] == '==' and C(0) in c[2:] and any(x[0] == 'call' and x[1] == N('len') for x in c[2:]) for c, pol, _ in st.conds) or \
             any((not pol) and is_line(c) for c, pol, _ in st.conds)
         heading = any(pol and c[0] == 'call' and c[1][0] == 'attr' and c[1][2] == 'startswith' and is_line(c[1][1]) for c, pol, _ in st.conds)
-        parses = [e[1] for e in st.events if e[0] == 'call' and e[1][1] in (N('_parse_ptb'),) or (e[0] == 'call' and e[1][1][0] == 'func' and e[1][1][1] == '_parse_ptb')]
+        # a heading recognised by anything but a test on how the line starts (a pattern searched anywhere in it, `in`) takes
+        # tree lines that merely contain the text for headings
+        loose = [show(c)[:50] for c, pol, _ in st.conds if pol and not (c[0] == 'call' and c[1][0] == 'attr' and c[1][2] == 'startswith')
+                 and ((c[0] == 'call' and c[1][0] == 'attr' and c[1][2] in ('search', 'findall', 'find') and any(is_line(a_) for a_ in c[2]))
+                      or (c[0] == 'cmp' and c[1] == 'in' and is_line(c[3])))]
+        parses = [e[1] for e in st.events if e[0] == 'call' and (e[1][1] in (N('_parse_ptb'),) or (e[1][1][0] == 'func' and e[1][1][1] == '_parse_ptb')
+                                                                 or (what == 'AUTO' and e[1][1][0] == 'name' and e[1][1][1][:1] == '_' and e[1][1][1][1:2].isupper() and e[1][2]
+                                                                     and any(is_line(x_) for x_ in subterms(e[1][2][0]))))]
+        if loose and not parses:
+            judged += 1
+            bad.append('a line is taken for a heading when %s' % loose[0])
+            continue
         judged += 1
         if blank or heading:
             continue
         if not parses:
             bad.append('a line that is neither blank nor a heading is not parsed when %s' % '; '.join('%s%s' % ('' if pol else 'not ', show(c)[:40]) for c, pol, _ in st.conds[-2:]))
-        elif not all(p_[2] and is_line(p_[2][0]) for p_ in parses):
+        elif what != 'AUTO' and not all(p_[2] and is_line(p_[2][0]) for p_ in parses):
             bad.append('the line parser is given %s, not the line' % show(parses[0][2][0] if parses[0][2] else C(None))[:60])
     if judged < 2:      # (heading / line to parse; the blank test may sit in a helper that hands the lines over)
-        raise AnalysisError('%s: read_ptb: the line loop was not recognised' % RD)
-    rep.check(not bad, R, w, 'read_ptb:line-by-line', 'every line that is neither blank nor a heading goes to the line parser by itself (%d paths)' % judged,
-              '%s -- an incomplete line is not rejected: it is held back and swallows the lines that follow' % '; '.join(sorted(set(bad))[:2]))
+        raise AnalysisError('%s: %s: the line loop was not recognised' % (RD, reader))
+    rep.check(not bad, R, w, reader + ':line-by-line', 'every line that is neither blank nor a heading goes to the line parser by itself (%d paths)' % judged,
+              '%s -- %s' % ('; '.join(sorted(set(bad))[:2]), 'an incomplete line is not rejected: it is held back and swallows the lines that follow' if what == 'PTB' else 'lines of the file are not read back as trees'))
 
 
 def check(repo, rep, tier):
